@@ -584,7 +584,7 @@ Proof.
     set (n := fold_right _ 0 fs) in *. assert (0 <= n * rel20) by (apply Qmult_le_0_compat; lra). lra.
 Qed.
 
-Lemma wf_case_ovalid ofs os ag ts : wf_case (CFills ofs os ag ts) = true ->
+Lemma wf_case_ovalid ofs os ag ts ik : wf_case (CFills ofs os ag ts ik) = true ->
   exists i, Forall (ovalid i) ofs.
 Proof.
   cbn [wf_case]. destruct ofs as [|f0 l]; [exists 0%N; constructor|].
@@ -597,7 +597,7 @@ Qed.
     property oracle accepts *)
 Theorem oracle_sound : forall c, wf_case c = true -> corr_b c = true -> prop_b c = true.
 Proof.
-  intros [ofs os ag ts] Hwf Hcorr. destruct (wf_case_ovalid _ _ _ _ Hwf) as [i Hof].
+  intros [ofs os ag ts ik] Hwf Hcorr. destruct (wf_case_ovalid _ _ _ _ _ Hwf) as [i Hof].
   cbn [corr_b prop_b] in *. set (t := tols_of ofs) in *.
   destruct (tols_of_nonneg ofs) as [T1 [T2 T3]]. fold t in T1, T2, T3.
   apply andb_prop in Hcorr. destruct Hcorr as [Hcorr Hts].
